@@ -189,23 +189,9 @@ impl ToTokens for Expansion<'_> {
 
         let field_ref = quote! { & #mut_ self.#field_ident };
 
-        // `&` binds tighter than `+`, so a trait object with several bounds has to be parenthesized
-        // before a reference to it can be spelled.
-        // Also, a trait object without a lifetime bound is `'static` where the user wrote it (in a
-        // field or in the attribute), but would take the lifetime of the reference in the method's
-        // signature, so that bound is spelled out.
-        let referent = |ty: &syn::Type| match ty {
-            syn::Type::TraitObject(obj)
-                if !obj
-                    .bounds
-                    .iter()
-                    .any(|b| matches!(b, syn::TypeParamBound::Lifetime(_))) =>
-            {
-                quote! { (#ty + 'static) }
-            }
-            syn::Type::TraitObject(obj) if obj.bounds.len() > 1 => quote! { (#ty) },
-            _ => quote! { #ty },
-        };
+        // A trait object keeps the lifetime it has where the user wrote it (in a field or in the
+        // attribute) only as an argument, and `&` binds tighter than the `+` of several bounds.
+        let referent = |ty: &syn::Type| crate::utils::behind_reference(ty);
         let field_referent = referent(field_ty);
 
         let generics_search = GenericsSearch {
